@@ -336,6 +336,13 @@ fn main() {
         for s in 0..seeds {
             let seed = cli.seed.wrapping_mul(977).wrapping_add(s);
             check_ratio_one(rep, d, 3 * d + 40, seed);
+            // long runs at ratio 1 (a position that drifts by an ulp per frame leaves the 1e-12
+            // band only after a few thousand frames), all three routes x eight rates over the seeds
+            if d == 1 || d == 4 || d == 8 || d == 16 {
+                for v in 0..8u64 {
+                    check_ratio_one(rep, d, 6_000, seed.wrapping_mul(8).wrapping_add(v));
+                }
+            }
             if d <= 128 {
                 for v in 0..4u64 {
                     check_linearity_f64(rep, d, seed.wrapping_mul(4).wrapping_add(v), 1.0); // all four operand shapes
